@@ -873,7 +873,7 @@ impl Formatter {
     if self.html {
       format!("<div id=\"abstract\" class=\"mech-abstract\">{}</div>", abstract_paragraph)
     } else {
-      format!("{}\n", abstract_paragraph)
+      format!("%% {}\n", abstract_paragraph)
     }
   }
 
